@@ -1,140 +1,752 @@
-(** Proofs about M-STORE (C10 round 4). *)
+(** Proofs about M-STORE (EntRevisions + the CLI apply loop) used by C12:
+    the storage contract the C12 theorems rest on, and the C12 statements
+    lifted from [Executor.Execute] over an abstract table to [Execute] over the
+    store with read faults, and to the file loop of `migrate apply`. *)
 From Coq Require Import List NArith Bool Arith Lia.
-From Atlas Require Import Base.Bytes Base.ListX Exec.ExecModel Exec.ExecProofs Exec.PendingModel Exec.RunModel
-  Exec.TxModel Exec.TxProofs Exec.StoreModel.
+From Atlas Require Import Base.Bytes Base.ListX Exec.ExecModel Exec.ExecProofs Exec.StepProofs Exec.PendingModel Exec.RunModel Exec.StoreModel.
 Import ListNotations.
 
-Section StoreProofs.
+Section Proofs.
 Variable hash : Type.
 Variable hash_eqb : hash -> hash -> bool.
 Variable HS : bytes -> hash.
+Hypothesis hash_eqb_spec : forall a b, hash_eqb a b = true <-> a = b.
+
 Notation rev := (rev hash).
-Notation event := (event hash).
-Notation db := (db hash).
 Notation execute := (execute hash hash_eqb HS).
-Notation run_stmts := (run_stmts hash).
-Notation run_direct := (run_direct hash).
+Notation execute_rd := (execute_rd hash hash_eqb HS).
+Notation execute_st := (execute_st hash hash_eqb HS).
+Notation apply_files := (apply_files hash hash_eqb HS).
+Notation read_revision := (read_revision hash).
+Notation recorded := (recorded hash HS).
+Notation collision_at := (collision_at hash HS).
 
-(** ** the contract *)
-Lemma store_write_read (t : list rev) r t' :
-  write_revision hash t r false = Some t' ->
-  read_revision hash t' (r_version r) false = RRow hash r /\
-  (forall v, v <> r_version r -> read_revision hash t' v false = read_revision hash t v false).
-Proof.
-  unfold write_revision, read_revision. intros E. inversion E; subst t'. split.
-  - rewrite (tbl_get_put_same hash). reflexivity.
-  - intros v Hv. rewrite (tbl_get_put_other hash) by exact Hv. reflexivity.
-Qed.
+Lemma pop_hd_tl (fs : list bool) : pop fs = (hd false fs, tl fs).
+Proof. destruct fs; reflexivity. Qed.
 
-Lemma store_read_exact (t : list rev) v :
-  match read_revision hash t v false with
-  | RRow _ r => tbl_get t v = Some r
-  | RNotExist _ => tbl_get t v = None
-  | RErr _ => False
-  end.
-Proof. unfold read_revision. destruct (tbl_get t v); reflexivity. Qed.
-
-Lemma execute_st_read_error f (t : list rev) fs :
-  execute_st hash hash_eqb HS f t true fs = (XRead, t, fs, []).
+(** ** [execute_rd] generalises [execute] *)
+Lemma execute_rd_get f (t : list rev) fs :
+  execute_rd f (tbl_get t (f_version f)) t fs = execute f t fs.
 Proof. reflexivity. Qed.
 
-Lemma execute_st_ok f (t : list rev) fs :
-  execute_st hash hash_eqb HS f t false fs =
-  (let '(o, t', fs', es) := execute f t fs in (XExec o, t', fs', es)).
-Proof. unfold execute_st, read_revision. destruct (tbl_get t (f_version f)); reflexivity. Qed.
+(** ** the storage contract *)
 
-(** ** a refused write is a crash right before it *)
-Definition all_ok (es : list event) : Prop := Forall (fun e => event_ok hash e = true) es.
+(** A read returns the exact stored row, NotExist exactly when there is none,
+    and an error only when the statement itself failed. *)
+Lemma read_revision_spec (t : list rev) fs v :
+  read_revision t fs v =
+  (if hd false fs then RdError
+   else match tbl_get t v with Some r => RdRow r | None => RdNotExist end, tl fs).
+Proof. unfold StoreModel.read_revision. rewrite pop_hd_tl. destruct (hd false fs); reflexivity. Qed.
 
-Lemma write_event (t : list rev) fs r ok t' fs' e :
-  write t fs r = (ok, t', fs', e) -> e = EWrite r ok /\ (ok = false -> t' = t).
+(** An upsert overwrites every column: what is read back is the revision written. *)
+Lemma write_then_read (t : list rev) fs r ok t' fs' e fs2 :
+  write t fs r = (ok, t', fs', e) -> ok = true -> hd false fs2 = false ->
+  fst (read_revision t' fs2 (r_version r)) = RdRow r.
 Proof.
-  unfold write. destruct (pop fs) as [[|] fs1]; intros H; inversion H; subst; auto.
-  split; [reflexivity|discriminate].
+  intros W Hok Hf. apply write_ok_inv in W as (_ & Hput & _ & _ & _).
+  rewrite read_revision_spec, Hf, (Hput Hok), tbl_get_put_same. reflexivity.
 Qed.
 
-Lemma run_stmts_events v rest : forall srest r (t : list rev) fs o r' t' fs' es,
-  run_stmts v rest srest r t fs = (o, r', t', fs', es) ->
-  match o with
-  | ODone => all_ok es
-  | OWriteErr => exists es0 x, es = es0 ++ [EWrite x false] /\ all_ok es0
-  | _ => True
-  end.
+(** ... and the other rows are untouched. *)
+Lemma write_then_read_other (t : list rev) fs r ok t' fs' e v :
+  write t fs r = (ok, t', fs', e) -> v <> r_version r -> tbl_get t' v = tbl_get t v.
 Proof.
-  induction rest as [|s rest IH]; intros srest r t fs o r' t' fs' es H; simpl in H.
-  - inversion H; subst. constructor.
-  - destruct (pop fs) as [[|] fs1].
-    + inversion H; subst. exact I.
-    + destruct srest as [|h srest']; [inversion H; subst; exact I|].
-      destruct (write t fs1 (step_applied r h)) as [[[ok t2] fs2] e] eqn:W.
-      destruct (write_event _ _ _ _ _ _ _ W) as [-> _].
-      destruct ok.
-      * destruct (run_stmts v rest srest' (step_applied r h) t2 fs2) as [[[[o2 r2] t3] fs3] es2] eqn:R.
-        inversion H; subst. specialize (IH _ _ _ _ _ _ _ _ _ R).
-        destruct o; try exact I.
-        -- constructor; [reflexivity|]. constructor; [reflexivity|exact IH].
-        -- destruct IH as (es0 & x & -> & Hok).
-           exists (EExec v (r_applied r) s true :: EWrite (step_applied r h) true :: es0), x.
-           split; [reflexivity|]. constructor; [reflexivity|]. constructor; [reflexivity|exact Hok].
-      * inversion H; subst. exists [EExec v (r_applied r) s true], (step_applied r h).
-        split; [reflexivity|]. constructor; [reflexivity|constructor].
+  intros W Hv. apply write_ok_inv in W as (_ & Hput & Hfail & _ & _).
+  destruct ok; [rewrite (Hput eq_refl); apply tbl_get_put_other; exact Hv|rewrite (Hfail eq_refl); reflexivity].
 Qed.
 
-(** Execute ends with OWriteErr exactly at a refused write: every event before
-    it succeeded and nothing follows it. *)
-Lemma execute_write_err f (t : list rev) fs t' fs' es :
-  execute f t fs = (OWriteErr, t', fs', es) ->
-  exists es0 x, es = es0 ++ [EWrite x false] /\ all_ok es0.
+(** A failed upsert leaves the table as it was. *)
+Lemma write_fail_unchanged (t : list rev) fs r ok t' fs' e :
+  write t fs r = (ok, t', fs', e) -> ok = false -> t' = t.
+Proof. intros W Hok. apply write_ok_inv in W as (_ & _ & Hfail & _ & _). auto. Qed.
+
+(** ** [execute_st] *)
+
+Lemma execute_st_read_error f (t : list rev) fs :
+  hd false fs = true -> execute_st f t fs = (SReadErr, t, tl fs, []).
 Proof.
-  unfold ExecModel.execute. intros H.
-  set (r0 := match tbl_get t (f_version f) with Some r => r | None => new_rev (f_version f) (length (f_stmts f)) end) in *.
-  destruct (write t fs r0) as [[[ok t1] fs1] e1] eqn:W1.
-  destruct (write_event _ _ _ _ _ _ _ W1) as [-> _].
-  destruct ok; simpl in H.
-  2:{ inversion H; subst. exists [], r0. split; [reflexivity|constructor]. }
-  destruct (if 0 <? r_applied r0 then check_loop hash hash_eqb (r_applied r0) 0 (sums hash HS (f_stmts f)) (r_hashes r0) else Some None)
-    as [[i|]|]; [| |inversion H].
-  - destruct (write t1 fs1 r0) as [[[ok2 t2] fs2] e2]. inversion H.
-  - cbn [r_applied set_total] in H. destruct (length (f_stmts f) <? r_applied r0); [inversion H|].
-    destruct (run_stmts (f_version f) _ _ _ t1 fs1) as [[[[o r2] t2] fs2] es2] eqn:R.
-    pose proof (run_stmts_events _ _ _ _ _ _ _ _ _ _ _ R) as HR.
-    destruct o.
-    + destruct (write t2 fs2 (set_hashes r2 [])) as [[[ok3 t3] fs3] e3] eqn:W3.
-      destruct (write_event _ _ _ _ _ _ _ W3) as [-> _].
-      destruct ok3; inversion H; subst.
-      exists (EWrite r0 true :: es2), (set_hashes r2 []). split; [reflexivity|].
-      constructor; [reflexivity|exact HR].
-    + destruct (write t2 fs2 r2) as [[[ok3 t3] fs3] e3]. inversion H.
-    + inversion H; subst. destruct HR as (es0 & x & -> & Hok).
-      exists (EWrite r0 true :: es0), x. split; [reflexivity|]. constructor; [reflexivity|exact Hok].
-    + inversion H.
-    + inversion H.
+  intros H. unfold StoreModel.execute_st. rewrite read_revision_spec, H. reflexivity.
 Qed.
 
-Lemma run_direct_app es1 es2 (d : db) :
-  run_direct (es1 ++ es2) d =
-  (let '(d1, tr1) := run_direct es1 d in let '(d2, tr2) := run_direct es2 d1 in (d2, tr1 ++ tr2)).
+Lemma execute_st_read_ok f (t : list rev) fs :
+  hd false fs = false ->
+  execute_st f t fs =
+  let '(o, t', fs', es) := execute f t (tl fs) in (SExec o, t', fs', es).
 Proof.
-  revert d; induction es1 as [|e es1 IH]; intros d; simpl.
-  - destruct (run_direct es2 d); reflexivity.
-  - rewrite IH. destruct (run_direct es1 (apply_event hash d e)) as [d1 tr1].
-    destruct (run_direct es2 d1) as [d2 tr2]. simpl. rewrite app_assoc. reflexivity.
+  intros H. unfold StoreModel.execute_st. rewrite read_revision_spec, H.
+  rewrite <- execute_rd_get. destruct (tbl_get t (f_version f)); reflexivity.
 Qed.
 
-(** Without a transaction (tx-mode none / a `txmode none` file): the state a
-    refused revision write leaves is the state the LAST crash point of the run
-    shows, and that point is a before-write: a storage fault on a write is a crash
-    right before that write. *)
-Lemma write_fault_is_crash f (c : db) fs t' fs' es :
-  execute f (d_tbl c) fs = (OWriteErr, t', fs', es) ->
-  forall c' tr, run_direct es c = (c', tr) ->
-  exists tr0, tr = tr0 ++ [(BeforeWrite, c')].
+(** C12_read_error_refuses: when reading the revision fails, nothing is
+    executed, nothing is written and the table is unchanged -- also for every
+    file that follows, in both transaction modes. *)
+Lemma C12_read_error_lemma txfile f rest (t : list rev) fs :
+  hd false fs = true ->
+  execute_st f t fs = (SReadErr, t, tl fs, []) /\
+  apply_files txfile (f :: rest) t fs = (SReadErr, t, tl fs, [], []).
 Proof.
-  intros EX c' tr R.
-  destruct (execute_write_err _ _ _ _ _ _ EX) as (es0 & x & -> & _).
-  rewrite run_direct_app in R.
-  destruct (run_direct es0 c) as [d1 tr1]. simpl in R. inversion R; subst.
-  exists tr1. reflexivity.
+  intros H. split; [apply execute_st_read_error; exact H|].
+  cbn [StoreModel.apply_files]. rewrite (execute_st_read_error _ _ _ H).
+  destruct txfile; reflexivity.
 Qed.
 
-End StoreProofs.
+(** The applied part was edited: whatever fails in the storage layer (the
+    read, the first or the deferred write), nothing is executed and the table
+    is what it was; without a fault the outcome is HistoryChanged. *)
+Lemma C12_refuse_st_lemma (t : list rev) fs f r old :
+  tbl_get t (f_version f) = Some r ->
+  0 < r_applied r -> recorded r old ->
+  firstn (r_applied r) (f_stmts f) <> firstn (r_applied r) old ->
+  forall o t' fs' es, execute_st f t fs = (o, t', fs', es) ->
+  collision_at old (f_stmts f) (r_applied r) \/
+  (exec_events es = [] /\ t' = t /\ o <> SExec ODone /\
+   (hd false fs = true -> o = SReadErr /\ es = []) /\
+   (hd false fs = false -> hd false (tl fs) = true -> o = SExec OWriteErr) /\
+   (hd false fs = false -> hd false (tl fs) = false ->
+      exists i, o = SExec (OHistory i) /\ 1 <= i <= r_applied r)).
+Proof.
+  intros Hget Hpos Hrec Hne o t' fs' es Hex.
+  destruct (hd false fs) eqn:Hh.
+  - rewrite (execute_st_read_error _ _ _ Hh) in Hex. inversion Hex; subst. right.
+    repeat split; auto; try discriminate.
+  - rewrite (execute_st_read_ok _ _ _ Hh) in Hex.
+    destruct (execute f t (tl fs)) as [[[o0 t0] fs0] es0] eqn:E.
+    inversion Hex; subst.
+    destruct (C12_refuse_lemma hash hash_eqb HS hash_eqb_spec t (tl fs) f r old Hget Hpos Hrec Hne _ _ _ _ E)
+      as [Hc|(He & Ht & Hw & Hhist)]; [left; exact Hc|right].
+    repeat split; auto; try discriminate.
+    + destruct (hd false (tl fs)) eqn:H2.
+      * rewrite (Hw eq_refl). discriminate.
+      * destruct (Hhist eq_refl) as (i & -> & _). discriminate.
+    + intros _ H2. rewrite (Hw H2). reflexivity.
+    + intros _ H2. destruct (Hhist H2) as (i & -> & Hi). exists i. split; [reflexivity|exact Hi].
+Qed.
+
+(** ... and the file loop of `migrate apply` stops there: no statement of this
+    or of any following file runs, nothing is committed, in both tx modes. *)
+Lemma C12_refuse_apply_lemma txfile (t : list rev) fs f rest r old :
+  tbl_get t (f_version f) = Some r ->
+  0 < r_applied r -> recorded r old ->
+  firstn (r_applied r) (f_stmts f) <> firstn (r_applied r) old ->
+  forall o t' fs' es j, apply_files txfile (f :: rest) t fs = (o, t', fs', es, j) ->
+  collision_at old (f_stmts f) (r_applied r) \/
+  (exec_events es = [] /\ j = [] /\ t' = t /\ o <> SExec ODone).
+Proof.
+  intros Hget Hpos Hrec Hne o t' fs' es j Hap.
+  cbn [StoreModel.apply_files] in Hap.
+  destruct (execute_st f t fs) as [[[o1 t1] fs1] es1] eqn:E.
+  destruct (C12_refuse_st_lemma t fs f r old Hget Hpos Hrec Hne _ _ _ _ E)
+    as [Hc|(He & Ht & Ho & _)]; [left; exact Hc|right].
+  assert (journal es1 = []) as Hj.
+  { clear - He. induction es1 as [|e es1 IH]; [reflexivity|].
+    destruct e as [v i s ok|r0 ok]; simpl in *; [discriminate|auto]. }
+  destruct o1 as [|[]]; try congruence;
+    (destruct txfile; inversion Hap; subst; repeat split; auto; discriminate).
+Qed.
+
+(** Only the tail was edited, no fault: Execute over the store resumes with
+    the new tail and leaves a complete revision. *)
+Lemma C12_tail_st_lemma (t : list rev) f r old :
+  tbl_get t (f_version f) = Some r -> recorded r old ->
+  firstn (r_applied r) (f_stmts f) = firstn (r_applied r) old ->
+  exists t' es r',
+    execute_st f t [] = (SExec ODone, t', [], es) /\
+    journal es = map (pair (f_version f)) (skipn (r_applied r) (f_stmts f)) /\
+    tbl_get t' (f_version f) = Some r' /\
+    r_applied r' = length (f_stmts f) /\ r_total r' = length (f_stmts f) /\ r_hashes r' = [] /\
+    (forall v', v' <> f_version f -> tbl_get t' v' = tbl_get t v').
+Proof.
+  intros Hget Hrec Hsame.
+  destruct (C12_tail_lemma hash hash_eqb HS hash_eqb_spec t f r old Hget Hrec Hsame)
+    as (t' & es & r' & Hex & Hrest).
+  exists t', es, r'. split; [|exact Hrest].
+  rewrite execute_st_read_ok by reflexivity. simpl tl. rewrite Hex. reflexivity.
+Qed.
+
+(** Never a panic, whatever the storage does. *)
+Lemma C12_no_panic_st_lemma f (t : list rev) fs :
+  (forall r, tbl_get t (f_version f) = Some r -> r_applied r <= length (r_hashes r)) ->
+  forall o t' fs' es, execute_st f t fs = (o, t', fs', es) -> o <> SExec OPanic.
+Proof.
+  intros Hwf o t' fs' es Hex.
+  destruct (hd false fs) eqn:Hh.
+  - rewrite (execute_st_read_error _ _ _ Hh) in Hex. inversion Hex; discriminate.
+  - rewrite (execute_st_read_ok _ _ _ Hh) in Hex.
+    destruct (execute f t (tl fs)) as [[[o0 t0] fs0] es0] eqn:E.
+    inversion Hex; subst. intros Hp. inversion Hp; subst.
+    exact (C12_no_panic_lemma hash hash_eqb HS hash_eqb_spec f t (tl fs) Hwf _ _ _ _ E eq_refl).
+Qed.
+
+(** ** the whole command on a one-file directory *)
+
+(** [Executor.Pending] on a directory with one (non-checkpoint) file whose
+    revision is the only one stored and is partial: the file is pending. *)
+Lemma pending_single_partial c f (r : rev) :
+  f_ckpt f = false -> r_version r = f_version f -> r_applied r <> r_total r ->
+  pending c [f] [r] = (PFiles [f], None).
+Proof.
+  intros Hck Hv Hpart. unfold pending, skip_checkpoints, last_opt. cbn [filter length Nat.sub nth_error].
+  rewrite Hck. cbn [negb filter].
+  assert (r_applied r =? r_total r = false) as -> by (apply Nat.eqb_neq; exact Hpart).
+  cbn [negb andb Nat.eqb length map].
+  unfold bsearch. cbn [length map bsearch_loop Nat.ltb Nat.leb Nat.add Nat.div Nat.divmod fst nth_error].
+  rewrite Hv, bytes_ltb_irrefl. cbn [Nat.ltb Nat.leb nth_error].
+  rewrite bytes_eqb_refl, Hck.
+  unfold files_last_index. cbn [last_index_from]. rewrite bytes_eqb_refl.
+  cbn [skipn firstn index_func]. reflexivity.
+Qed.
+
+(** `atlas migrate apply` on a one-file directory whose partially applied
+    file had its applied part edited: for every fault stream, both tx modes
+    and every count argument, nothing is executed or committed and the table
+    is what it was; the command does not succeed. *)
+Lemma C12_refuse_cli_lemma txfile c n fs f (r : rev) old :
+  f_ckpt f = false -> r_version r = f_version f -> r_applied r <> r_total r ->
+  0 < r_applied r -> recorded r old ->
+  firstn (r_applied r) (f_stmts f) <> firstn (r_applied r) old ->
+  forall o t' fs' es j, cli_apply hash hash_eqb HS txfile c n [f] [r] fs = (o, t', fs', es, j) ->
+  collision_at old (f_stmts f) (r_applied r) \/
+  (exec_events es = [] /\ j = [] /\ t' = [r] /\
+   o <> CRun (SExec ODone) /\ o <> CPend PNoPending).
+Proof.
+  intros Hck Hv Hpart Hpos Hrec Hne o t' fs' es j Hcli.
+  unfold cli_apply, read_revisions_f in Hcli.
+  rewrite pop_hd_tl in Hcli. destruct (hd false fs).
+  { inversion Hcli; subst. right. repeat split; auto; discriminate. }
+  change (read_revisions hash [r]) with [r] in Hcli.
+  rewrite (pending_single_partial c f r Hck Hv Hpart) in Hcli. cbn [negb] in Hcli.
+  rewrite pop_hd_tl in Hcli. destruct (hd false (tl fs)).
+  { inversion Hcli; subst. right. repeat split; auto; discriminate. }
+  assert ((if 0 <? n then firstn n [f] else [f]) = [f]) as E.
+  { destruct n; [reflexivity|]. cbn. destruct n; reflexivity. }
+  rewrite E in Hcli.
+  destruct (apply_files txfile [f] [r] (tl (tl fs))) as [[[[o1 t1] fs1] es1] j1] eqn:A.
+  inversion Hcli; subst.
+  assert (tbl_get [r] (f_version f) = Some r) as Hget.
+  { cbn. rewrite Hv, bytes_eqb_refl. reflexivity. }
+  destruct (C12_refuse_apply_lemma txfile [r] (tl (tl fs)) f [] r old Hget Hpos Hrec Hne _ _ _ _ _ A)
+    as [Hc|(He & Hj & Ht & Ho)]; [left; exact Hc|right].
+  repeat split; auto; [congruence|discriminate].
+Qed.
+
+(** ** a one-row table stays a one-row table *)
+Lemma tbl_put_single (x y : rev) : r_version x = r_version y -> tbl_put [x] y = [y].
+Proof. intros E. cbn. rewrite E, bytes_eqb_refl. reflexivity. Qed.
+
+Lemma write_single (x y : rev) fs ok t' fs' e :
+  write [x] fs y = (ok, t', fs', e) -> r_version x = r_version y ->
+  exists x', t' = [x'] /\ r_version x' = r_version x.
+Proof.
+  intros W E. apply write_ok_inv in W as (_ & Hput & Hfail & _ & _).
+  destruct ok.
+  - exists y. rewrite (Hput eq_refl), (tbl_put_single _ _ E). auto.
+  - exists x. rewrite (Hfail eq_refl). auto.
+Qed.
+
+Lemma run_stmts_single v rest : forall srest (r x : rev) fs o r2 t' fs' es,
+  run_stmts hash v rest srest r [x] fs = (o, r2, t', fs', es) ->
+  r_version r = r_version x ->
+  (exists x', t' = [x'] /\ r_version x' = r_version x) /\ r_version r2 = r_version x.
+Proof.
+  induction rest as [|s rest IH]; intros srest r x fs o r2 t' fs' es H E; simpl in H.
+  - inversion H; subst. split; [exists x; auto|exact E].
+  - destruct (pop fs) as [fail fs1]. destruct fail.
+    + inversion H; subst. split; [exists x; auto|exact E].
+    + destruct srest as [|h srest].
+      * inversion H; subst. split; [exists x; auto|exact E].
+      * destruct (write [x] fs1 (step_applied r h)) as [[[ok t2] fs2] e] eqn:W.
+        destruct (write_single _ _ _ _ _ _ _ W) as (x1 & -> & Hx1); [simpl; congruence|].
+        destruct ok.
+        -- destruct (run_stmts hash v rest srest (step_applied r h) [x1] fs2) as [[[[o3 r3] t3] fs3] es3] eqn:R.
+           inversion H; subst.
+           destruct (IH _ _ _ _ _ _ _ _ _ R) as [(x' & -> & Hx') Hr]; [simpl; congruence|].
+           split; [exists x'; split; [reflexivity|congruence]|congruence].
+        -- inversion H; subst. split; [exists x1; auto|simpl; exact E].
+Qed.
+
+Lemma execute_single f (r : rev) fs o t' fs' es :
+  r_version r = f_version f ->
+  execute f [r] fs = (o, t', fs', es) ->
+  exists x', t' = [x'] /\ r_version x' = f_version f.
+Proof.
+  intros Hv Hex. unfold ExecModel.execute in Hex.
+  assert (tbl_get [r] (f_version f) = Some r) as Hget by (cbn; rewrite Hv, bytes_eqb_refl; reflexivity).
+  rewrite Hget in Hex.
+  destruct (write [r] fs r) as [[[ok t1] fs1] e1] eqn:W1.
+  destruct (write_single _ _ _ _ _ _ _ W1 eq_refl) as (x1 & -> & Hx1).
+  destruct ok; simpl in Hex; [|inversion Hex; subst; exists x1; split; [reflexivity|congruence]].
+  destruct (if 0 <? r_applied r then check_loop hash hash_eqb (r_applied r) 0 (sums hash HS (f_stmts f)) (r_hashes r) else Some None)
+    as [[c|]|].
+  - destruct (write [x1] fs1 r) as [[[ok2 t2] fs2] e2] eqn:W2.
+    destruct (write_single _ _ _ _ _ _ _ W2) as (x2 & -> & Hx2); [congruence|].
+    inversion Hex; subst. exists x2. split; [reflexivity|congruence].
+  - simpl in Hex. destruct (length (f_stmts f) <? r_applied r).
+    + inversion Hex; subst. exists x1. split; [reflexivity|congruence].
+    + destruct (run_stmts hash (f_version f) (skipn (r_applied r) (f_stmts f)) (skipn (r_applied r) (sums hash HS (f_stmts f)))
+                 (set_total r (length (f_stmts f))) [x1] fs1) as [[[[o2 r2] t2] fs2] es2] eqn:R.
+      destruct (run_stmts_single _ _ _ _ _ _ _ _ _ _ _ R) as [(x2 & -> & Hx2) Hr2]; [simpl; congruence|].
+      destruct o2.
+      * destruct (write [x2] fs2 (set_hashes r2 [])) as [[[ok3 t3] fs3] e3] eqn:W3.
+        destruct (write_single _ _ _ _ _ _ _ W3) as (x3 & -> & Hx3); [simpl; congruence|].
+        inversion Hex; subst. exists x3. split; [reflexivity|congruence].
+      * destruct (write [x2] fs2 r2) as [[[ok3 t3] fs3] e3] eqn:W3.
+        destruct (write_single _ _ _ _ _ _ _ W3) as (x3 & -> & Hx3); [congruence|].
+        inversion Hex; subst. exists x3. split; [reflexivity|congruence].
+      * inversion Hex; subst. exists x2. split; [reflexivity|congruence].
+      * inversion Hex; subst. exists x2. split; [reflexivity|congruence].
+      * inversion Hex; subst. exists x2. split; [reflexivity|congruence].
+  - inversion Hex; subst. exists x1. split; [reflexivity|congruence].
+Qed.
+
+Lemma bytes_leb_refl' a : bytes_leb a a = true.
+Proof. rewrite bytes_leb_ltb, bytes_ltb_irrefl. reflexivity. Qed.
+
+(** [Executor.Pending] when the only file's only revision is complete: nothing to do. *)
+Lemma pending_single_complete c f (r : rev) :
+  f_ckpt f = false -> r_version r = f_version f -> r_applied r = r_total r ->
+  pending c [f] [r] = (PNoPending, None).
+Proof.
+  intros Hck Hv Hdone. unfold pending, skip_checkpoints, last_opt. cbn [filter length Nat.sub nth_error].
+  rewrite Hck. cbn [negb filter].
+  assert (r_applied r =? r_total r = true) as Hd by (apply Nat.eqb_eq; exact Hdone).
+  rewrite Hd. cbn [negb andb].
+  unfold files_last_index. cbn [last_index_from]. rewrite Hv, bytes_leb_refl'.
+  cbn [skipn firstn index_func]. rewrite bytes_leb_refl'.
+  cbn [Nat.ltb Nat.leb andb skipn filter].
+  unfold out_of_order, bsearch. cbn [length map bsearch_loop Nat.ltb Nat.leb Nat.add Nat.div Nat.divmod fst nth_error].
+  rewrite Hv, bytes_ltb_irrefl. cbn [Nat.ltb Nat.leb nth_error].
+  rewrite bytes_eqb_refl, Hd. cbn [negb orb].
+  destruct (c_order c); reflexivity.
+Qed.
+
+(** `atlas migrate apply` on a one-file directory whose partially applied file
+    had only its tail edited, no fault: it executes exactly the new tail,
+    leaves one complete revision, and the next `migrate apply` has nothing to do. *)
+Lemma C12_tail_cli_lemma txfile c n f (r : rev) old :
+  f_ckpt f = false -> r_version r = f_version f -> r_applied r <> r_total r ->
+  recorded r old ->
+  firstn (r_applied r) (f_stmts f) = firstn (r_applied r) old ->
+  exists es r',
+    cli_apply hash hash_eqb HS txfile c n [f] [r] [] =
+      (CRun (SExec ODone), [r'], [], es, map (pair (f_version f)) (skipn (r_applied r) (f_stmts f))) /\
+    r_version r' = f_version f /\
+    r_applied r' = length (f_stmts f) /\ r_total r' = length (f_stmts f) /\ r_hashes r' = [] /\
+    cli_apply hash hash_eqb HS txfile c n [f] [r'] [] = (CPend PNoPending, [r'], [], [], []).
+Proof.
+  intros Hck Hv Hpart Hrec Hsame.
+  assert (tbl_get [r] (f_version f) = Some r) as Hget by (cbn; rewrite Hv, bytes_eqb_refl; reflexivity).
+  destruct (C12_tail_lemma hash hash_eqb HS hash_eqb_spec [r] f r old Hget Hrec Hsame)
+    as (t' & es & r' & Hex & Hj & Hget' & Ha & Ht & Hh & _).
+  destruct (execute_single f r [] _ _ _ _ Hv Hex) as (x' & -> & Hx').
+  assert (x' = r') as ->.
+  { cbn in Hget'. rewrite Hx', bytes_eqb_refl in Hget'. congruence. }
+  assert ((if 0 <? n then firstn n [f] else [f]) = [f]) as E.
+  { destruct n; [reflexivity|]. cbn. destruct n; reflexivity. }
+  exists es, r'. split; [|split; [exact Hx'|split; [exact Ha|split; [exact Ht|split; [exact Hh|]]]]].
+  - unfold cli_apply, read_revisions_f. cbn [pop].
+    change (read_revisions hash [r]) with [r].
+    rewrite (pending_single_partial c f r Hck Hv Hpart). cbn [negb pop]. rewrite E.
+    cbn [StoreModel.apply_files]. rewrite (execute_st_read_ok f [r] []) by reflexivity.
+    cbn [tl]. rewrite Hex. rewrite !app_nil_r, Hj. reflexivity.
+  - unfold cli_apply, read_revisions_f. cbn [pop].
+    change (read_revisions hash [r']) with [r'].
+    rewrite (pending_single_complete c f r' Hck Hx') by congruence. reflexivity.
+Qed.
+
+(** ** whatever fails, recorded progress is never lost and only the tail runs *)
+
+Lemma write_keeps_progress (t : list rev) fs y ok t' fs' e v x k0 :
+  write t fs y = (ok, t', fs', e) ->
+  tbl_get t v = Some x -> k0 <= r_applied x -> r_version y = v -> k0 <= r_applied y ->
+  exists x', tbl_get t' v = Some x' /\ k0 <= r_applied x'.
+Proof.
+  intros W Hget Hx Hv Hy. apply write_ok_inv in W as (_ & Hput & Hfail & _ & _).
+  destruct ok.
+  - exists y. rewrite (Hput eq_refl), <- Hv, tbl_get_put_same. auto.
+  - exists x. rewrite (Hfail eq_refl). auto.
+Qed.
+
+Lemma run_stmts_progress v rest : forall srest (r : rev) t fs o r2 t' fs' es x k0,
+  run_stmts hash v rest srest r t fs = (o, r2, t', fs', es) ->
+  tbl_get t v = Some x -> k0 <= r_applied x -> r_version r = v -> k0 <= r_applied r ->
+  (exists x', tbl_get t' v = Some x' /\ k0 <= r_applied x') /\
+  r_version r2 = v /\ k0 <= r_applied r2 /\
+  exists m, journal es = map (pair v) (firstn m rest).
+Proof.
+  induction rest as [|s rest IH]; intros srest r t fs o r2 t' fs' es x k0 H Hget Hx Hv Hr; simpl in H.
+  - inversion H; subst. repeat split; eauto. exists 0. reflexivity.
+  - destruct (pop fs) as [fail fs1]. destruct fail.
+    + inversion H; subst. repeat split; eauto. exists 0. reflexivity.
+    + destruct srest as [|h srest].
+      * inversion H; subst. repeat split; eauto. exists 1. reflexivity.
+      * destruct (write t fs1 (step_applied r h)) as [[[ok t2] fs2] e] eqn:W.
+        destruct (write_keeps_progress _ _ _ _ _ _ _ _ _ k0 W Hget Hx) as (x1 & Hget1 & Hx1);
+          [simpl; exact Hv|simpl; lia|].
+        pose proof (write_ok_inv _ _ _ _ _ _ _ _ W) as (He & _). subst e.
+        destruct ok.
+        -- subst v.
+           destruct (run_stmts hash (r_version r) rest srest (step_applied r h) t2 fs2) as [[[[o3 r3] t3] fs3] es3] eqn:R.
+           inversion H; subst.
+           destruct (IH _ _ _ _ _ _ _ _ _ _ k0 R Hget1 Hx1) as (Hx' & Hv3 & Hr3 & m & Hm);
+             [reflexivity|simpl; lia|].
+           repeat split; auto. exists (S m). simpl. rewrite Hm. reflexivity.
+        -- inversion H; subst. repeat split; eauto; [simpl; lia|]. exists 1. reflexivity.
+Qed.
+
+(** For every file, table and fault stream: the revision of the file that was
+    stored before [Execute] is still there afterwards and its [Applied] did not
+    decrease (it is never replaced by a fresh one); and when the applied part is
+    intact the statements executed are a prefix of the not-yet-applied tail. *)
+Lemma C12_progress_lemma f (t : list rev) fs r :
+  tbl_get t (f_version f) = Some r ->
+  forall o t' fs' es, execute_st f t fs = (o, t', fs', es) ->
+  (exists r', tbl_get t' (f_version f) = Some r' /\ r_applied r <= r_applied r') /\
+  exists m, journal es = map (pair (f_version f)) (firstn m (skipn (r_applied r) (f_stmts f))).
+Proof.
+  intros Hget o t' fs' es Hex.
+  pose proof (tbl_get_version hash _ _ _ Hget) as Hv.
+  destruct (hd false fs) eqn:Hh.
+  { rewrite (execute_st_read_error _ _ _ Hh) in Hex. inversion Hex; subst.
+    split; [exists r; auto|exists 0; reflexivity]. }
+  rewrite (execute_st_read_ok _ _ _ Hh) in Hex.
+  destruct (execute f t (tl fs)) as [[[o0 t0] fs0] es0] eqn:E.
+  inversion Hex; subst. clear Hex.
+  unfold ExecModel.execute in E. rewrite Hget in E.
+  destruct (write t (tl fs) r) as [[[ok t1] fs1] e1] eqn:W1.
+  destruct (write_keeps_progress _ _ _ _ _ _ _ _ _ (r_applied r) W1 Hget (le_n _) Hv (le_n _)) as (x1 & Hget1 & Hx1).
+  assert (journal [e1] = []) as Hj1.
+  { apply write_ok_inv in W1 as (-> & _). reflexivity. }
+  destruct ok; simpl in E.
+  2:{ inversion E; subst. split; [exists x1; auto|exists 0; exact Hj1]. }
+  destruct (if 0 <? r_applied r then check_loop hash hash_eqb (r_applied r) 0 (sums hash HS (f_stmts f)) (r_hashes r) else Some None)
+    as [[c|]|].
+  - destruct (write t1 fs1 r) as [[[ok2 t2] fs2] e2] eqn:W2.
+    destruct (write_keeps_progress _ _ _ _ _ _ _ _ _ (r_applied r) W2 Hget1 Hx1 Hv (le_n _)) as (x2 & Hget2 & Hx2).
+    inversion E; subst. split; [exists x2; auto|]. exists 0.
+    apply write_ok_inv in W1 as (-> & _). apply write_ok_inv in W2 as (-> & _). reflexivity.
+  - simpl in E. destruct (length (f_stmts f) <? r_applied r).
+    + inversion E; subst. split; [exists x1; auto|exists 0; exact Hj1].
+    + destruct (run_stmts hash (f_version f) (skipn (r_applied r) (f_stmts f)) (skipn (r_applied r) (sums hash HS (f_stmts f)))
+                 (set_total r (length (f_stmts f))) t1 fs1) as [[[[o2 r2] t2] fs2] es2] eqn:R.
+      destruct (run_stmts_progress _ _ _ _ _ _ _ _ _ _ _ _ (r_applied r) R Hget1 Hx1) as ((x2 & Hget2 & Hx2) & Hv2 & Hr2 & m & Hm);
+        [simpl; exact Hv|simpl; lia|].
+      assert (forall e3 : event hash, (exists r3 ok3, e3 = EWrite r3 ok3) ->
+              journal (e1 :: es2 ++ [e3]) = map (pair (f_version f)) (firstn m (skipn (r_applied r) (f_stmts f)))) as Hje.
+      { intros e3 (r3 & ok3 & ->). apply write_ok_inv in W1 as (-> & _). cbn [journal].
+        rewrite journal_app. cbn [journal]. rewrite app_nil_r. exact Hm. }
+      assert (journal (e1 :: es2) = map (pair (f_version f)) (firstn m (skipn (r_applied r) (f_stmts f)))) as Hj2.
+      { apply write_ok_inv in W1 as (-> & _). cbn [journal]. exact Hm. }
+      destruct o2.
+      * destruct (write t2 fs2 (set_hashes r2 [])) as [[[ok3 t3] fs3] e3] eqn:W3.
+        destruct (write_keeps_progress _ _ _ _ _ _ _ _ _ (r_applied r) W3 Hget2 Hx2) as (x3 & Hget3 & Hx3);
+          [simpl; exact Hv2|simpl; exact Hr2|].
+        inversion E; subst. split; [exists x3; auto|]. exists m. apply Hje.
+        apply write_ok_inv in W3 as (-> & _). eauto.
+      * destruct (write t2 fs2 r2) as [[[ok3 t3] fs3] e3] eqn:W3.
+        destruct (write_keeps_progress _ _ _ _ _ _ _ _ _ (r_applied r) W3 Hget2 Hx2 Hv2 Hr2) as (x3 & Hget3 & Hx3).
+        inversion E; subst. split; [exists x3; auto|]. exists m. apply Hje.
+        apply write_ok_inv in W3 as (-> & _). eauto.
+      * inversion E; subst. split; [exists x2; auto|exists m; exact Hj2].
+      * inversion E; subst. split; [exists x2; auto|exists m; exact Hj2].
+      * inversion E; subst. split; [exists x2; auto|exists m; exact Hj2].
+  - inversion E; subst. split; [exists x1; auto|exists 0; exact Hj1].
+Qed.
+
+(** ** the premise [recorded] is what the executor itself leaves behind *)
+
+(** Tables reachable by earlier attempts on the (unchanged) file [f], through
+    the store, with arbitrary faults: the revision was absent at first; an
+    attempt is made only while the file is pending (absent or partial revision:
+    what [Executor.Pending] returns). *)
+Inductive after_attempts (f : file) : list rev -> Prop :=
+| AA_first t : tbl_get t (f_version f) = None -> after_attempts f t
+| AA_again t fs o t' fs' es :
+    after_attempts f t ->
+    (forall r, tbl_get t (f_version f) = Some r -> r_applied r <> r_total r) ->
+    execute_st f t fs = (o, t', fs', es) -> after_attempts f t'.
+
+Definition attempt_inv (f : file) (t : list rev) : Prop :=
+  tbl_get t (f_version f) = None \/
+  exists r, tbl_get t (f_version f) = Some r /\ r_total r = length (f_stmts f) /\
+            claim_ok hash HS f r (r_applied r).
+
+Lemma claim_partial_recorded f (r : rev) :
+  claim_ok hash HS f r (r_applied r) -> r_total r = length (f_stmts f) -> r_applied r <> r_total r ->
+  recorded r (f_stmts f).
+Proof.
+  intros (_ & _ & Hle & [Hh|[Hm _]]) Ht Hp; [split; [exact Hle|exact Hh]|congruence].
+Qed.
+
+Lemma after_attempts_inv f t : after_attempts f t -> attempt_inv f t.
+Proof.
+  induction 1 as [t Hn|t fs o t' fs' es _ IH Hpend Hex]; [left; exact Hn|].
+  destruct (hd false fs) eqn:Hh.
+  { rewrite (execute_st_read_error _ _ _ Hh) in Hex. inversion Hex; subst. exact IH. }
+  rewrite (execute_st_read_ok _ _ _ Hh) in Hex.
+  destruct (execute f t (tl fs)) as [[[o0 t0] fs0] es0] eqn:E. inversion Hex; subst. clear Hex.
+  assert (exists r0, pre hash HS f t r0 /\ r_total r0 = length (f_stmts f)) as (r0 & Hpre & Htot).
+  { destruct IH as [Hn|(r & Hg & Ht & Hc)].
+    - exists (new_rev (f_version f) (length (f_stmts f))). split; [left; auto|reflexivity].
+    - exists r. split; [right; split; [exact Hg|]|exact Ht].
+      apply claim_partial_recorded; auto. }
+  destruct (execute_spec hash hash_eqb HS hash_eqb_spec f t r0 (tl fs) o0 t' fs' es Hpre Htot E)
+    as (c & a' & _ & _ & _ & _ & _ & _ & Hst & _).
+  destruct Hst as [(-> & Hn & _)|(r' & -> & Hc & Ht')]; [left; exact Hn|].
+  right. exists r'. pose proof Hc as (Hv & Ha & _).
+  split; [rewrite <- Hv; apply tbl_get_put_same|]. split; [exact Ht'|]. rewrite Ha. exact Hc.
+Qed.
+
+(** End to end: the file was attempted any number of times (any faults), is
+    partially applied, and then its applied part is edited: the next attempt,
+    whatever fails in the storage layer, executes nothing and leaves the table
+    as it is (or a collision between the two files' prefixes is exhibited).
+    No premise about the stored hashes is left: they are what the earlier
+    attempts recorded. *)
+Lemma C12_end_to_end_refuse_lemma f_old f_new t (r : rev) :
+  after_attempts f_old t -> f_version f_new = f_version f_old ->
+  tbl_get t (f_version f_old) = Some r -> 0 < r_applied r -> r_applied r <> r_total r ->
+  firstn (r_applied r) (f_stmts f_new) <> firstn (r_applied r) (f_stmts f_old) ->
+  forall fs o t' fs' es, execute_st f_new t fs = (o, t', fs', es) ->
+  collision_at (f_stmts f_old) (f_stmts f_new) (r_applied r) \/
+  (exec_events es = [] /\ t' = t /\ o <> SExec ODone).
+Proof.
+  intros HA Hv Hget Hpos Hpart Hne fs o t' fs' es Hex.
+  destruct (after_attempts_inv _ _ HA) as [Hn|(r1 & Hg & Ht & Hc)]; [congruence|].
+  assert (r1 = r) as -> by congruence.
+  pose proof (claim_partial_recorded _ _ Hc Ht Hpart) as Hrec.
+  rewrite <- Hv in Hget.
+  destruct (C12_refuse_st_lemma t fs f_new r (f_stmts f_old) Hget Hpos Hrec Hne _ _ _ _ Hex)
+    as [Hcol|(He & Ht' & Ho & _)]; [left; exact Hcol|right; auto].
+Qed.
+
+(** ... and when only the tail was edited (or nothing), the fault-free next
+    attempt runs exactly the new tail and leaves a complete revision. *)
+Lemma C12_end_to_end_tail_lemma f_old f_new t (r : rev) :
+  after_attempts f_old t -> f_version f_new = f_version f_old ->
+  tbl_get t (f_version f_old) = Some r -> r_applied r <> r_total r ->
+  firstn (r_applied r) (f_stmts f_new) = firstn (r_applied r) (f_stmts f_old) ->
+  exists t' es r',
+    execute_st f_new t [] = (SExec ODone, t', [], es) /\
+    journal es = map (pair (f_version f_new)) (skipn (r_applied r) (f_stmts f_new)) /\
+    tbl_get t' (f_version f_new) = Some r' /\
+    r_applied r' = length (f_stmts f_new) /\ r_total r' = length (f_stmts f_new) /\ r_hashes r' = [] /\
+    (forall v', v' <> f_version f_new -> tbl_get t' v' = tbl_get t v').
+Proof.
+  intros HA Hv Hget Hpart Hsame.
+  destruct (after_attempts_inv _ _ HA) as [Hn|(r1 & Hg & Ht & Hc)]; [congruence|].
+  assert (r1 = r) as -> by congruence.
+  pose proof (claim_partial_recorded _ _ Hc Ht Hpart) as Hrec.
+  rewrite <- Hv in Hget.
+  exact (C12_tail_st_lemma t f_new r (f_stmts f_old) Hget Hrec Hsame).
+Qed.
+
+(** ** attribution: the statement reported is the first edited one *)
+Lemma check_loop_first k : forall i sm hs j,
+  i <= j < i + k ->
+  (forall m, i <= m < j -> m < length sm /\ exists a, nth_error sm m = Some a /\ nth_error hs m = Some a) ->
+  (length sm <= j \/ exists a b, nth_error sm j = Some a /\ nth_error hs j = Some b /\ a <> b) ->
+  check_loop hash hash_eqb k i sm hs = Some (Some j).
+Proof.
+  induction k as [|k IH]; intros i sm hs j Hj Hsame Hdiff; [lia|].
+  simpl. destruct (Nat.eq_dec i j) as [->|Hij].
+  - destruct Hdiff as [Hl|(a & b & Ha & Hb & Hab)].
+    + assert (length sm <=? j = true) as -> by (apply Nat.leb_le; exact Hl). reflexivity.
+    + assert (j < length sm) as Hlt by (apply nth_error_Some; congruence).
+      assert (length sm <=? j = false) as -> by (apply Nat.leb_gt; exact Hlt).
+      rewrite Ha, Hb. destruct (hash_eqb a b) eqn:E; [apply hash_eqb_spec in E; contradiction|reflexivity].
+  - destruct (Hsame i) as (Hl & a & Ha & Hb); [lia|].
+    assert (length sm <=? i = false) as -> by (apply Nat.leb_gt; exact Hl).
+    rewrite Ha, Hb.
+    assert (hash_eqb a a = true) as -> by (apply hash_eqb_spec; reflexivity).
+    apply IH; [lia| |exact Hdiff]. intros m Hm. apply Hsame. lia.
+Qed.
+
+(** The first [j] statements are as recorded, statement [j+1] (one of the
+    applied ones) is not -- or the file ends there: the error names exactly
+    statement [j+1], or the two versions of the file collide at that prefix. *)
+Lemma C12_attribution_lemma (t : list rev) fs f r old j :
+  tbl_get t (f_version f) = Some r -> recorded r old ->
+  j < r_applied r ->
+  firstn j (f_stmts f) = firstn j old ->
+  firstn (S j) (f_stmts f) <> firstn (S j) old ->
+  hd false fs = false ->
+  forall o t' fs' es, execute f t fs = (o, t', fs', es) ->
+  o = OHistory (S j) \/
+  (concat (firstn (S j) (f_stmts f)) <> concat (firstn (S j) old) /\
+   HS (concat (firstn (S j) (f_stmts f))) = HS (concat (firstn (S j) old))).
+Proof.
+  intros Hget Hrec Hj Hsame Hdiff Hfs o t' fs' es Hex.
+  set (stmts := f_stmts f) in *.
+  pose proof Hrec as [Hk _].
+  assert (Hjl : j <= length stmts).
+  { assert (length (firstn j stmts) = length (firstn j old)) as E by (rewrite Hsame; reflexivity).
+    rewrite !firstn_length in E. lia. }
+  assert (Hpref : forall m, 0 <= m < j ->
+            m < length (sums hash HS stmts) /\
+            exists a, nth_error (sums hash HS stmts) m = Some a /\ nth_error (r_hashes r) m = Some a).
+  { intros m Hm. rewrite sums_length. split; [lia|].
+    exists (HS (concat (firstn (S m) stmts))). split; [apply sums_nth; lia|].
+    rewrite (recorded_nth hash HS _ _ _ Hrec) by lia. do 2 f_equal.
+    assert (firstn (S m) stmts = firstn (S m) (firstn j stmts)) as -> by (rewrite firstn_firstn; f_equal; lia).
+    rewrite Hsame, firstn_firstn. do 2 f_equal. lia. }
+  assert (Hcl : check_loop hash hash_eqb (r_applied r) 0 (sums hash HS stmts) (r_hashes r) = Some (Some j) \/
+                (concat (firstn (S j) stmts) <> concat (firstn (S j) old) /\
+                 HS (concat (firstn (S j) stmts)) = HS (concat (firstn (S j) old)))).
+  { destruct (le_lt_dec (length stmts) j) as [Hl|Hl].
+    - left. apply check_loop_first; [lia|exact Hpref|left; rewrite sums_length; exact Hl].
+    - assert (Hcne : concat (firstn (S j) stmts) <> concat (firstn (S j) old)).
+      { intros Hc. apply Hdiff.
+        destruct (nth_error_some_lt stmts j Hl) as [x Hx].
+        destruct (nth_error_some_lt old j) as [y Hy]; [lia|].
+        rewrite (firstn_S_snoc stmts j x Hx), (firstn_S_snoc old j y Hy) in *.
+        rewrite !concat_app in Hc. simpl in Hc. rewrite !app_nil_r in Hc.
+        rewrite Hsame in Hc. apply app_inv_head in Hc. subst. rewrite Hsame. reflexivity. }
+      destruct (hash_eqb (HS (concat (firstn (S j) stmts))) (HS (concat (firstn (S j) old)))) eqn:Eh.
+      + apply hash_eqb_spec in Eh. right. split; assumption.
+      + left. apply check_loop_first; [lia|exact Hpref|right].
+        exists (HS (concat (firstn (S j) stmts))), (HS (concat (firstn (S j) old))).
+        split; [apply sums_nth; exact Hl|]. split; [apply (recorded_nth hash HS _ _ _ Hrec); exact Hj|].
+        intros E. rewrite E in Eh.
+        assert (hash_eqb (HS (concat (firstn (S j) old))) (HS (concat (firstn (S j) old))) = true) as X
+          by (apply hash_eqb_spec; reflexivity). congruence. }
+  destruct Hcl as [CL|Hcol]; [left|right; exact Hcol].
+  unfold ExecModel.execute in Hex. fold stmts in Hex. rewrite Hget in Hex.
+  unfold write at 1 in Hex. rewrite pop_hd_tl, Hfs in Hex. cbn [negb] in Hex.
+  assert (0 <? r_applied r = true) as Hp by (apply Nat.ltb_lt; lia). rewrite Hp, CL in Hex.
+  destruct (write (tbl_put t r) (tl fs) r) as [[[ok2 t2] fs2] e2]. inversion Hex. reflexivity.
+Qed.
+
+(** ** histories in which the tail of the file changes between the attempts *)
+
+Lemma sums_from_firstn a : forall acc s,
+  firstn a (sums_from hash HS acc s) = sums_from hash HS acc (firstn a s).
+Proof.
+  induction a as [|a IH]; intros acc s; [reflexivity|].
+  destruct s as [|x s]; [reflexivity|]. cbn [sums_from firstn]. rewrite IH. reflexivity.
+Qed.
+
+Lemma recorded_tail_edit (r : rev) s s' :
+  recorded r s -> firstn (r_applied r) s' = firstn (r_applied r) s -> recorded r s'.
+Proof.
+  intros [Hk Hh] E. split.
+  - assert (length (firstn (r_applied r) s') = length (firstn (r_applied r) s)) as L by (rewrite E; reflexivity).
+    rewrite !firstn_length in L. lia.
+  - rewrite Hh. unfold sums. rewrite !sums_from_firstn, E. reflexivity.
+Qed.
+
+(** What the executor leaves behind for a file: the stored revision, if any, is
+    complete by its own account or records a prefix of the file. *)
+Definition stored_ok (f : file) (t : list rev) : Prop :=
+  forall r, tbl_get t (f_version f) = Some r ->
+    r_applied r = r_total r \/ recorded r (f_stmts f).
+
+Lemma rv_recorded f kind m :
+  m <= length (f_stmts f) ->
+  recorded (rv hash (f_version f) (length (f_stmts f)) kind (sums hash HS (f_stmts f)) m) (f_stmts f).
+Proof. intros H. split; [exact H|reflexivity]. Qed.
+
+Lemma execute_stored_ok f (t : list rev) fs o t' fs' es :
+  stored_ok f t ->
+  (forall r, tbl_get t (f_version f) = Some r -> r_applied r <> r_total r) ->
+  execute f t fs = (o, t', fs', es) -> stored_ok f t'.
+Proof.
+  intros Hinv Hpend Hex.
+  assert (exists r0, pre hash HS f t r0) as (r0 & Hpre).
+  { destruct (tbl_get t (f_version f)) as [r|] eqn:G.
+    - exists r. right. split; [exact G|]. destruct (Hinv r G) as [E|Hr]; [destruct (Hpend r eq_refl E)|exact Hr].
+    - exists (new_rev (f_version f) (length (f_stmts f))). left. split; [exact G|reflexivity]. }
+  assert (recorded r0 (f_stmts f)) as Hr0.
+  { destruct Hpre as [[_ ->]|[_ H]]; [split; [simpl; lia|reflexivity]|exact H]. }
+  pose proof (pre_version hash HS f t r0 Hpre) as Hv0.
+  destruct (execute_shape hash hash_eqb HS hash_eqb_spec f t r0 Hpre fs o t' fs' es Hex) as [Hsh _].
+  assert (Hput : forall r', r_version r' = f_version f ->
+            (r_applied r' = r_total r' \/ recorded r' (f_stmts f)) -> stored_ok f (tbl_put t r')).
+  { intros r' Hv Hr' r Hg. rewrite <- Hv, tbl_get_put_same in Hg. inversion Hg; subst. exact Hr'. }
+  assert (Hcur : forall c, r_applied r0 + c <= length (f_stmts f) ->
+            r_version (cur hash HS f r0 c) = f_version f /\ recorded (cur hash HS f r0 c) (f_stmts f) /\
+            r_total (cur hash HS f r0 c) = length (f_stmts f) /\ r_applied (cur hash HS f r0 c) = r_applied r0 + c).
+  { intros c Hc. unfold cur. destruct (c =? 0) eqn:E.
+    - apply Nat.eqb_eq in E. subst c. rewrite Nat.add_0_r. simpl. repeat split; auto; apply Hr0.
+    - simpl. repeat split; auto. }
+  assert (Hsto : forall c, r_applied r0 + c <= length (f_stmts f) ->
+            r_version (sto hash HS f r0 c) = f_version f /\ recorded (sto hash HS f r0 c) (f_stmts f)).
+  { intros c Hc. unfold sto. destruct (c =? 0); [split; assumption|]. simpl. repeat split; auto. }
+  destruct Hsh as [_ -> _|c ok3 Hc _ _ ->|c s ok3 Hn _ _ ->|c s Hn _ _ ->].
+  - exact Hinv.
+  - destruct (Hcur c) as (Hv & Hrec & Ht & Ha); [lia|]. destruct (Hsto c) as (Hvs & Hrs); [lia|].
+    destruct ok3; apply Hput; [simpl; exact Hv|left; simpl; lia|exact Hvs|right; exact Hrs].
+  - assert (r_applied r0 + c < length (f_stmts f)) as Hlt by (apply nth_error_Some; congruence).
+    destruct (Hcur c) as (Hv & Hrec & Ht & Ha); [lia|]. destruct (Hsto c) as (Hvs & Hrs); [lia|].
+    destruct ok3; apply Hput; [simpl; exact Hv| |exact Hvs|right; exact Hrs].
+    right. destruct Hrec as [A B]. split; simpl; assumption.
+  - assert (r_applied r0 + c < length (f_stmts f)) as Hlt by (apply nth_error_Some; congruence).
+    destruct (Hsto c) as (Hvs & Hrs); [lia|]. apply Hput; [exact Hvs|right; exact Hrs].
+Qed.
+
+(** Histories of a file: attempts through the store (arbitrary faults, only
+    while the file is pending) interleaved with edits that leave the applied
+    part alone (tail-only edits; any edit while nothing is recorded). *)
+Inductive file_history : file -> list rev -> Prop :=
+| FH_first f t : tbl_get t (f_version f) = None -> file_history f t
+| FH_attempt f t fs o t' fs' es :
+    file_history f t ->
+    (forall r, tbl_get t (f_version f) = Some r -> r_applied r <> r_total r) ->
+    execute_st f t fs = (o, t', fs', es) -> file_history f t'
+| FH_tail_edit f f' t :
+    file_history f t -> f_version f' = f_version f ->
+    (forall r, tbl_get t (f_version f) = Some r -> r_applied r <> r_total r /\
+       firstn (r_applied r) (f_stmts f') = firstn (r_applied r) (f_stmts f)) ->
+    file_history f' t.
+
+Lemma file_history_stored_ok f t : file_history f t -> stored_ok f t.
+Proof.
+  induction 1 as [f t Hn|f t fs o t' fs' es _ IH Hpend Hex|f f' t _ IH Hv Hed].
+  - intros r Hg. congruence.
+  - destruct (hd false fs) eqn:Hh.
+    { rewrite (execute_st_read_error _ _ _ Hh) in Hex. inversion Hex; subst. exact IH. }
+    rewrite (execute_st_read_ok _ _ _ Hh) in Hex.
+    destruct (execute f t (tl fs)) as [[[o0 t0] fs0] es0] eqn:E. inversion Hex; subst.
+    exact (execute_stored_ok f t (tl fs) o0 t' fs' es IH Hpend E).
+  - intros r Hg. rewrite Hv in Hg. destruct (Hed r Hg) as [Hp Hs].
+    destruct (IH r Hg) as [E|Hr]; [contradiction|]. right. exact (recorded_tail_edit r _ _ Hr Hs).
+Qed.
+
+(** After any such history, a partially applied file whose applied part is
+    then edited is refused under every fault stream, with the first edited
+    statement named when the lookup and the first write succeed. *)
+Lemma C12_history_refuse_lemma f f_new t (r : rev) :
+  file_history f t -> f_version f_new = f_version f ->
+  tbl_get t (f_version f) = Some r -> 0 < r_applied r -> r_applied r <> r_total r ->
+  firstn (r_applied r) (f_stmts f_new) <> firstn (r_applied r) (f_stmts f) ->
+  forall fs o t' fs' es, execute_st f_new t fs = (o, t', fs', es) ->
+  collision_at (f_stmts f) (f_stmts f_new) (r_applied r) \/
+  (exec_events es = [] /\ t' = t /\ o <> SExec ODone /\
+   (hd false fs = false -> hd false (tl fs) = false ->
+      exists i, o = SExec (OHistory i) /\ 1 <= i <= r_applied r)).
+Proof.
+  intros HH Hv Hget Hpos Hpart Hne fs o t' fs' es Hex.
+  destruct (file_history_stored_ok _ _ HH r Hget) as [E|Hrec]; [contradiction|].
+  rewrite <- Hv in Hget.
+  destruct (C12_refuse_st_lemma t fs f_new r (f_stmts f) Hget Hpos Hrec Hne _ _ _ _ Hex)
+    as [Hcol|(He & Ht' & Ho & _ & _ & Hh)]; [left; exact Hcol|right; auto].
+Qed.
+
+Lemma C12_history_tail_lemma f f_new t (r : rev) :
+  file_history f t -> f_version f_new = f_version f ->
+  tbl_get t (f_version f) = Some r -> r_applied r <> r_total r ->
+  firstn (r_applied r) (f_stmts f_new) = firstn (r_applied r) (f_stmts f) ->
+  exists t' es r',
+    execute_st f_new t [] = (SExec ODone, t', [], es) /\
+    journal es = map (pair (f_version f_new)) (skipn (r_applied r) (f_stmts f_new)) /\
+    tbl_get t' (f_version f_new) = Some r' /\
+    r_applied r' = length (f_stmts f_new) /\ r_total r' = length (f_stmts f_new) /\ r_hashes r' = [] /\
+    (forall v', v' <> f_version f_new -> tbl_get t' v' = tbl_get t v').
+Proof.
+  intros HH Hv Hget Hpart Hsame.
+  destruct (file_history_stored_ok _ _ HH r Hget) as [E|Hrec]; [contradiction|].
+  rewrite <- Hv in Hget.
+  exact (C12_tail_st_lemma t f_new r (f_stmts f) Hget Hrec Hsame).
+Qed.
+
+End Proofs.
